@@ -21,6 +21,9 @@ checks = {
  "C07": dict(cat="exploration", tech="deterministic simulation (handlers parked at a yielding injector while frames arrive) + race detector inside single-quantum coalesced runs",
    text="(a) snapshot clause: up to 8 concurrently open streams whose handlers are parked before the real injector while further SETTINGS/WINDOW_UPDATE/PRIORITY/HEADERS arrive one TLS write at a time, released in any order; each fingerprint must be the fingerprint of one prefix in the request's interval (single sequential writer: linearizability of the reads reduces to interval membership, so porcupine is not needed). (b) race clause: a -race build of the same worker runs the sessions coalesced into one delivery without fences so capture and Marshal fall into one quantum where the detector sees them; reports whose stacks touch processFrame capture / metadata / fingerprint count.",
    note="Cooperative scheduling cannot create a schedule point between the two field updates of one HEADERS-with-priority capture; only the race detector speaks to tearing inside one capture. Race runs are not replayable as schedules (the -race runtime randomises the scheduler); the report itself is the artefact.", ref="7/C07"),
+ "C04": dict(cat="exploration", engine="simstream", tech="deterministic simulation of the byte stream under the wrapper (seeded cuts, short reads, EOF / reset / timeout at arbitrary offsets) + exhaustive enumeration of all cut schedules of short streams",
+   text="hack.HijackClientHelloConn over a simulated connection: valid records of every length class and record version with following records, truncated / non-handshake / bad-version streams, crossed with read schedules and stream endings; transparency (bytes above == bytes below) and exactness (GetClientHello == first 5+len bytes iff complete, otherwise an error, asked after every read). All 2^11 compositions of ten 12-byte streams are enumerated exhaustively in both tiers. End to end, the same segmentation profiles run under C01/C02.",
+   note="A read that returns bytes together with an error is only modelled as the terminal event of a stream (crypto/tls gives up on the first error). Records with a declared length >= 65531 wrap the wrapper's uint16 (O3), outside the quantifier.", ref="7/C04"),
  "C05": dict(cat="exploration", tech="deterministic simulation; unique client tokens tracked to the recording back-end",
    text="Requests carry unique client tokens under every configured fingerprint header name (random case, repeated) on both protocols, for every injector outcome (value / empty / error) and injector set; no token may reach the recording back-end and at most one value per name may arrive.",
    note="Injector outcomes for custom injectors are scripted; default injectors are the real ones.", ref="7/C05"),
@@ -39,6 +42,9 @@ checks = {
  "C17": dict(cat="exploration", tech="deterministic simulation; cancellation as a controller action at every decision index; simulated clock for the Shutdown poll",
    text="The server context is cancelled at a drawn decision index of a workload with handshakes in progress / stalled, idle keep-alive HTTP/1.1, open HTTP/2 and HTTP/1.1 exchanges held in flight by a slow back-end; also before Serve and repeatedly. Oracle: nothing attempted after the cancel reaches the back-end or gets an answer; the proxy writes nothing more on an HTTP/1.1 connection after Serve has returned (an exchange still in flight would); Serve returns http.ErrServerClosed with the listener closed within 2 simulated seconds of the cancel / last exchange; idle HTTP/1.1 connections are closed.",
    note="Observation O6: in-flight exchanges are cancelled (504) on shutdown because request contexts derive from the server context; the property does not promise their success.", ref="7/C17"),
+ "C19": dict(cat="exploration", engine="simstream", tech="deterministic simulation of the pipe between a writing and a reading Framer (seeded cuts, short reads, failure at an offset) + independent frame codec as reference",
+   text="Frames written by every Write* method with boundary and seeded parameters must equal the independent refframe encoding byte for byte and be read back as the same frames through a pipe that cuts and fails at seeded offsets (or fail with an I/O error, never a different frame, never above the read limit), header blocks reassembled across CONTINUATION by ReadMetaHeaders. Arbitrary frames / raw bytes: no panic, read limit respected, malformed frames and illegal HEADERS/CONTINUATION interleavings rejected with a code from the set RFC 7540 assigns (this clause is a pure function of the input: sampled, not decided by simulation).",
+   note="SETTINGS value ranges and header-block opened by PUSH_PROMISE are judged one layer up (C13), not by the codec table. WriteHeaders cannot express 'padded with length 0' nor an all-zero priority; those are generated only on the arbitrary-bytes side.", ref="7/C19"),
  "C15": dict(cat="exploration", tech="deterministic simulation; routing oracle (exactly one of local answer / back-end record)",
    text="User-Agent variants x methods x protocols x probe flag through the real flag wiring; each request must be answered locally or seen by the back-end, never both or neither, according to the prefix predicate.",
    note="HTTP/1.1 strips optional whitespace around field values before the predicate applies; the oracle accounts for that.", ref="7/C15"),
@@ -55,7 +61,8 @@ m = {
   "add_only": True,
  },
  "engines": [
-  {"name": "simproxy", "path": "/verif/harness", "serves_properties": sorted(checks.keys()), "kind_free_text": A},
+  {"name": "simproxy", "path": "/verif/harness", "serves_properties": sorted(k for k in checks if checks[k].get("engine","simproxy")=="simproxy"), "kind_free_text": A},
+  {"name": "simstream", "path": "/verif/harness", "serves_properties": sorted(k for k in checks if checks[k].get("engine")=="simstream"), "kind_free_text": "engine B (simstream): library surfaces whose only contact with nondeterminism is the byte stream handed to them; single goroutine; the stream is cut, short-read and failed at seeded offsets; same choice source, same replay format"},
  ],
  "checks": [],
  "notes": "Orchestrator: bin/verif check <ID> --tier quick|thorough (honours VERIF_SEED, VERIF_TIER). Exit 0 held / 1 violation / 2 harness trouble. Known findings: /verif/KNOWN_FINDINGS.txt.",
